@@ -45,6 +45,10 @@ vars2 == <<nd, up, net, lossy, pf, nf, clk, fresh, obs>>
 NodeInit(x) ==
   IF x = "srv" THEN [InitRec EXCEPT !.watch = [l \in DOMAIN @ |-> {}], !.wkeys = <<>>]
   ELSE [InitRec EXCEPT !.ann = <<>>]
+\* the very first incarnation may have been up for a long time already: its counters (multicast, towards the peer) have wrapped
+FirstInit(x) ==
+  IF Cfg.sess0 = <<>> THEN NodeInit(x)
+  ELSE [NodeInit(x) EXCEPT !.sessOut = ("mc" :> Cfg.sess0) @@ (Addr[Other(x)] :> Cfg.sess0)]
 Call(x, op) == [to |-> x, left |-> 0, e |-> [op |-> op]]
 \* harness calls of an instant reach the loop before the datagrams that become due in it, in the order they were made
 AddCall(nt, x, op) ==
@@ -53,7 +57,7 @@ AddCall(nt, x, op) ==
   IN SubSeq(nt, 1, n) \o <<Call(x, op)>> \o SubSeq(nt, n + 1, Len(nt))
 
 Init2 ==
-  /\ nd = [x \in Nodes |-> NodeInit(x)]
+  /\ nd = [x \in Nodes |-> FirstInit(x)]
   /\ up = [x \in Nodes |-> "run"]
   /\ net = <<Call("srv", "prot_start"), Call("wat", "prot_start")>>
   /\ lossy = FALSE /\ pf = <<>> /\ nf = 0 /\ clk = 0 /\ fresh = TRUE /\ obs = <<>>
